@@ -1737,8 +1737,9 @@ func (p *Parser) parseSelector() ast.Expr {
 func (p *Parser) parseIndexSpecifier() ast.SubscriptSpecifier {
 	pos := p.Token.Pos
 	switch {
-	case p.Token.IsIdent("OFFSET"), p.Token.IsIdent("ORDINAL"),
-		p.Token.IsIdent("SAFE_OFFSET"), p.Token.IsIdent("SAFE_ORDINAL"):
+	// OFFSET, ORDINAL, SAFE_OFFSET and SAFE_ORDINAL are not reserved: without "(" they are ordinary names (a[offset], a[ordinal * 2]).
+	case (p.Token.IsIdent("OFFSET") || p.Token.IsIdent("ORDINAL") ||
+		p.Token.IsIdent("SAFE_OFFSET") || p.Token.IsIdent("SAFE_ORDINAL")) && p.lookaheadToken().Kind == "(":
 		var keyword ast.PositionKeyword
 		switch {
 		case p.Token.IsIdent("OFFSET"):
